@@ -646,7 +646,7 @@ impl<'a> G<'a> {
             self.stats.push("call.mapped.vec");
             return Some(format!("{f}({o}{arg}{o2})[*]{rhs}"));
         }
-        let mut choice = self.rng.below(12);
+        let mut choice = self.rng.below(14);
         if choice == 10 && !(self.focus == Focus::Calls || self.focus == Focus::All) {
             choice = 0;
         }
@@ -742,6 +742,25 @@ impl<'a> G<'a> {
                 self.stats.push("call.ctxfn");
                 format!("ctxfn({o}{}{o2}){}=={}{v}", args.join(&format!(",{}", self.ows())), self.ws(), self.ws())
             }
+            12 | 13 => {
+                // a logical argument TWO calls deep: the inner call (which owns the logical
+                // argument) is itself a plain value argument of the outer call
+                //   addlit(b2i(<cmp>), 3) op rhs        len(when(<cmp>, <bytes path>)) op rhs
+                // half of the time <cmp> is a list comparison, so that `uses_list` has to look
+                // through a value argument to find it
+                let inner = self.nested_logical_arg(depth - 1)?;
+                if choice == 12 {
+                    let v = self.some_int();
+                    let rhs = self.op_rhs(Type::Int);
+                    self.stats.push("call.logical_in_value_call.addlit");
+                    format!("addlit({o}b2i({inner}),{}{}{o2}){rhs}", self.ows(), self.int_lit(v))
+                } else {
+                    let (b, _) = self.path_to(Type::Bytes, 0, false)?;
+                    let rhs = self.op_rhs(Type::Int);
+                    self.stats.push("call.logical_in_value_call.when");
+                    format!("len({o}when({inner},{}{b}){o2}){rhs}", self.ows())
+                }
+            }
             _ => {
                 // nested call
                 let (arg, _) = self.path_to(Type::Bytes, 0, false)?;
@@ -751,6 +770,25 @@ impl<'a> G<'a> {
             }
         };
         Some(t)
+    }
+
+    /// the logical argument of the inner call of `call_cmp` arms 12/13
+    fn nested_logical_arg(&mut self, depth: u32) -> Option<String> {
+        let prim = *self.rng.pick(&[Type::Int, Type::Ip, Type::Bytes]);
+        if self.has_list(prim) && self.rng.chance(1, 2) {
+            let (a, _) = self.path_to(prim, 0, false)?;
+            let list = self.in_list();
+            for (i, f) in self.spec.fields.iter().enumerate() {
+                if a.starts_with(&f.name)
+                    && !a[f.name.len()..].starts_with(|c: char| c.is_ascii_alphanumeric() || c == '_' || c == '.')
+                {
+                    self.used_in_list.insert(i);
+                }
+            }
+            self.stats.push("call.logical_in_value_call.list");
+            return Some(format!("{a}{list}"));
+        }
+        Some(self.comparison(false, depth))
     }
 
     // ---------------------------------------------------------------- logical structure
